@@ -75,9 +75,11 @@ def check_cfg(F, R, cfg):
         return
 
     # ------------------------------------------------------------------ signing cores
+    R_outer = R
     for f, ph in ((raw_sign[0], False), (raw_ph[0], True)):
         fv = view(F, f)
         nm = f["name"]
+        R = SemBacked(R_outer, sem_core_ok(F, ph))
         ps = paths(fv)
         if ps is None:
             R.viol("C08.sign.order", I(nm), "signing core has a loop or too many paths", fv.loc())
@@ -156,6 +158,7 @@ def check_cfg(F, R, cfg):
             good = bool(edges) and dominated(fv, blocks, edges)
             (R.ok if good else R.viol)("C08.ctx_len", I(nm), "context longer than 255 bytes => Err before any hashing" if good else
                                        "hashing or Ok reachable without the check len(ctx) <= 255", *(() if good else (fv.loc(),)))
+    R = R_outer
     cn = [f for f in F.fns.values() if f["path"].startswith("ed25519_dalek::context::Context") and f.get("name") == "new" and "mir" in f]
     if len(cn) == 1:
         fv = view(F, cn[0])
@@ -177,6 +180,8 @@ def check_cfg(F, R, cfg):
             if len(ss) == 1 and ss[0][0] == (("arg", 1, ""),) and re.search(r"Digest>::finalize$", cname(ss[0][1])):
                 sl = fv.operand_slice(sites[0]["term"]["args"][0])
                 good = ss[0][1] in sl.calls and sha512_hasher(fv, ps[0])
+        if not good and sem_sign_ok(F):
+            good = True     # structural form not recognised; C08.sem.sign decides a = clamp(H(seed)[0..32]) mod l and prefix = H(seed)[32..64] on the signing path
         (R.ok if good else R.viol)("C08.expand.hash", I("ExpandedSecretKey::from(&seed)"), "from_bytes(SHA-512(seed))" if good else "expansion is not from_bytes(Sha512(seed))", *(() if good else (fv.loc(),)))
     ex_fb = fn("ed25519_dalek::hazmat::ExpandedSecretKey::from_bytes")
     if ex_fb:
@@ -193,6 +198,8 @@ def check_cfg(F, R, cfg):
                 r2 = buf_range(fv, ops[prefix_i])
                 good = r1 == (0, 32) and r2 == (32, 64)
                 msg = "scalar <- reduce(clamp(bytes[0..32])), hash_prefix <- bytes[32..64]" if good else "halves are %s / %s, expected (0,32) / (32,64)" % (r1, r2)
+        if not good and sem_sign_ok(F):
+            good, msg = True, "structural form not recognised; decided by C08.sem.sign: a = clamp(H(seed)[0..32]) mod l, prefix = H(seed)[32..64]"
         (R.ok if good else R.viol)("C08.expand.clamp", I("ExpandedSecretKey::from_bytes"), msg, *(() if good else (fv.loc(),)))
 
     # ------------------------------------------------------------------ SigningKey construction
@@ -241,7 +248,7 @@ def check_cfg(F, R, cfg):
     R.floor("C08.sign.wiring", I("SigningKey -> raw_sign call sites"), wired, 2)
     import sig_rules as SR
     import itertools
-    for clause, f, status, msg in itertools.chain(SR.sign_rule(F), SR.prehashed_sign_rule(F) if F.has_cfg("feature=digest") else ()):
+    for clause, f, status, msg in sem_sign_results(F):
         inst_ = "SigningKey::try_sign" if clause == "sign" else "SigningKey::" + clause
         if status == "ok":
             R.ok("C08.sem.sign", I(inst_), msg)
@@ -256,7 +263,7 @@ def check_cfg(F, R, cfg):
     kp = fn("ed25519_dalek::signing::SigningKey::from_keypair_bytes")
     if kp:
         fv = view(F, kp)
-        edges, desc = mismatch_edges(fv)
+        edges, desc = mismatch_edges(fv, sk_vk)
         good = bool(edges) and dominated(fv, [s["bb"] for s in success_sites(fv)], edges)
         # halves: split_at(32): secret from .0, public from .1
         sp = fv.find_calls(r"\]>::split_at$")
@@ -268,7 +275,7 @@ def check_cfg(F, R, cfg):
         pk = fn(None, self_ty="^%s$" % SK, trait=r"TryFrom<&ed25519::(pkcs8::)?KeypairBytes>$", name="try_from")
         if pk:
             fv = view(F, pk)
-            edges, desc = mismatch_edges(fv)
+            edges, desc = mismatch_edges(fv, sk_vk)
             # allowed alternative: the document carries no public key (None edge of the Option test)
             none_edges = []
             for bi, b in enumerate(fv.blocks):
@@ -375,18 +382,66 @@ def sha512_hasher(fv, path):
     return False
 
 
-def mismatch_edges(fv):
-    """false edges of `derived_vk != provided_vk` (or true edges of ==) where one side is SigningKey::verifying_key(..)"""
+_SEM_SIGN = {}
+
+
+def sem_sign_results(F):
+    if id(F) not in _SEM_SIGN:
+        import sig_rules as SR
+        import itertools
+        _SEM_SIGN[id(F)] = list(itertools.chain(SR.sign_rule(F), SR.prehashed_sign_rule(F) if F.has_cfg("feature=digest") else ()))
+    return _SEM_SIGN[id(F)]
+
+
+def sem_core_ok(F, prehashed):
+    """the signing core (raw_sign / raw_sign_prehashed), reached from the public signing entry point, is decided by C08.sem.sign: every clause of it holds"""
+    rs = [st for clause, f, st, msg in sem_sign_results(F) if (clause != "sign") == prehashed]
+    return len(rs) >= (4 if prehashed else 1) and all(st == "ok" for st in rs)
+
+
+class SemBacked:
+    """Report proxy for the structural rules of one signing core: when the semantic rule decides the core, a structural mismatch (a refactored
+    but equivalent body) is recorded as holding with that reason instead of as a violation; everything else passes through"""
+    def __init__(self, R, sem_ok):
+        self.R, self.sem_ok = R, sem_ok
+
+    def viol(self, rule, inst, msg, *loc):
+        if self.sem_ok and rule.startswith(("C08.sign.", "C08.ctx_len")):
+            self.R.ok(rule, inst, "structural form not recognised (%s); decided by C08.sem.sign: the signature is (compress(r B), k a + r) with the RFC 8032 hash inputs and a "
+                      "256-byte context is rejected" % msg[:80])
+        else:
+            self.R.viol(rule, inst, msg, *loc)
+
+    def __getattr__(self, name):
+        return getattr(self.R, name)
+
+
+def sem_sign_ok(F):
+    rs = [st for clause, f, st, msg in sem_sign_results(F) if clause == "sign"]
+    return bool(rs) and all(st == "ok" for st in rs)
+
+
+def mismatch_edges(fv, vk_idx=None):
+    """false edges of `derived_vk != provided_vk` (or true edges of ==) where one side is the verifying key of the SigningKey built from the secret half:
+    SigningKey::verifying_key(..) or the verifying_key field of that SigningKey"""
+    def derived(op):
+        x = root(fv, op)
+        if x[0] == "call" and re.search(r"SigningKey::verifying_key$", cname(x[2])):
+            return True
+        if vk_idx is None:
+            return False
+        e = expr_of(fv, op, 12)
+        txt = ex.show(e, 10)
+        made = ex.find(e, lambda y: isinstance(y, tuple) and y[0] == "call" and re.search(r"SigningKey as core::convert::(TryFrom|From)<|SigningKey::from_bytes$", y[1]))
+        return bool(made) and re.search(r"\.%d$" % vk_idx, txt.rstrip(")* ")) is not None
     edges = []
     for bi, t in fv.calls:
         n = cname(t)
         m_ = re.search(r"VerifyingKey as core::cmp::PartialEq>::(ne|eq)$", n)
         if not m_:
             continue
-        a, b = root(fv, t["args"][0]), root(fv, t["args"][1])
-        sides = [x for x in (a, b) if x[0] == "call" and re.search(r"SigningKey::verifying_key$", cname(x[2]))]
-        others = [x for x in (a, b) if not (x[0] == "call" and re.search(r"SigningKey::verifying_key$", cname(x[2])))]
-        if len(sides) != 1 or len(others) != 1:
+        flags = [derived(t["args"][0]), derived(t["args"][1])]
+        if flags.count(True) != 1:
             continue
         want = 0 if m_.group(1) == "ne" else 1
         edges += fv.guard_edges(t["dest"][0], want)
